@@ -80,9 +80,9 @@ def draw_scenario(cs, cfg):
     sc["rgs"] = cs.bool("s_grad", 1, 2)
     sc["debug0"] = cs.bool("debug_initially_on", 1, 6)
     # a backward pass issued while the object holds other tensors than when its forward ran
-    # (harness-opened substitution around only one of them) hits the known stale-wrapper finding;
-    # such histories are generated on purpose, but rarely, so that they do not mask anything else
-    sc["allow_ctx_mismatch"] = cs.bool("allow_ctx_mismatch", 1, 6)
+    # (harness-opened substitution around only one of them): the history behind the stale-wrapper defect
+    # repaired by 6178b9a; generated in half of the scenarios
+    sc["allow_ctx_mismatch"] = cs.bool("allow_ctx_mismatch", 1, 2)
     nops = cs.randint(1, 4, "nops")
     ops = []
     res_plain = []     # per live result: produced without a substituting harness nest?
@@ -134,6 +134,9 @@ def draw_functional(cs, sc):
     if F in ("rootfinder", "reentrant"):
         spec["method"] = cs.choice(["broyden1", "broyden2", "linearmixing", "newton"], "m")
         spec["bck"] = cs.choice([None, "cg", "exactsolve", "bicgstab"], "bck")
+        if F == "reentrant":
+            # which functional the user's function calls on another method of the same object
+            spec["inner"] = cs.choice(["rootfinder", "quad", "equilibrium", "solve_ivp"], "inner")
     elif F == "equilibrium":
         spec["method"] = cs.choice(["broyden1", "anderson_acc", "linearmixing", "broyden2"], "m")
         spec["bck"] = cs.choice([None, "cg", "exactsolve"], "bck")
@@ -354,6 +357,9 @@ def run_functional(env, spec):
     wts = torch.linspace(0.5, 1.5, n, dtype=AC.DT)
     kn = dict(spec.get("knobs") or {})
     if F in ("rootfinder", "reentrant"):
+        if F == "reentrant":
+            for a_ in env.actors:
+                a_.inner_kind = spec.get("inner", "quad")
         f = get_fcn(env, method_name_of(spec))
         bck = {"method": spec["bck"]} if spec["bck"] else {}
         y = xo.rootfinder(f, env.y0, params=(s,), method=spec["method"], bck_options=bck, maxiter=40, **kn)
@@ -857,9 +863,17 @@ def execute(sc, plan, reference=None, collect=None):
             if [idents(a) for a in env.actors] != ids0:
                 viol.append({"inv": "I3.wrapper_reuse", "where": "end-of-history", "op": len(sc["ops"]), "opname": "end",
                              "detail": "a fresh substitution through a held wrapper does not restore"})
-            if [id(p) for p in pf.objparams()] != [id(p) for p in cur]:
+            # after a round trip the wrapper's report of the installed tensors must be the truth (tensors the
+            # objects hold now); before it, a wrapper made under another substitution may lag behind - that is
+            # internal bookkeeping, not state of the user's object
+            held = set()
+            for a in env.actors:
+                held.update(idents(a))
+            ghosts = [j for j, p in enumerate(pf.objparams()) if id(p) not in held]
+            if ghosts:
                 viol.append({"inv": "I3.wrapper_reuse", "where": "end-of-history", "op": len(sc["ops"]), "opname": "end",
-                             "detail": "wrapper reports different current parameters after a substitution round trip"})
+                             "detail": "after a substitution round trip the wrapper reports tensors %s that the "
+                                       "object does not hold" % ghosts})
         except Exception as e:
             viol.append({"inv": "I3.wrapper_locked", "where": "end-of-history", "op": len(sc["ops"]), "opname": "end",
                          "detail": "held wrapper cannot be used after the history: %s: %s" % (type(e).__name__, e)})
